@@ -5,4 +5,5 @@ CONSTANTS
   SetOrder = TRUE
   Timestamps = FALSE
   ComponentMemo = FALSE
+  FailureCorrupts = FALSE
 INVARIANT OutputIsFunctionOfModel
